@@ -76,6 +76,7 @@ def confirm(d):
         res["apply_output"] = out[-800:]
         sh("git reset -q --hard && git clean -fdq -e target", cwd=WT)
         return res
+    sh("touch build.rs", cwd=WT)  # the cc build script does not track extract.c
     rc, out, dt = sh("cargo build --workspace --offline 2>&1 | tail -3", cwd=WT)
     res["builds"] = "error" not in out.lower() or "warning" in out.lower() and "could not compile" not in out
     rc, out, dt = sh("cargo test --workspace --no-fail-fast --offline 2>&1 | grep -E '^test result|FAILED|panicked|could not compile'", cwd=WT)
@@ -90,7 +91,7 @@ def confirm(d):
         shutil.copy(os.path.join(d, "demo.rs"), os.path.join(WT, path))
         rc, out, dt = sh(cmd, cwd=WT, timeout=400)
         res["demo_with_patch"] = {"exit": rc, "wall_s": round(dt, 1), "tail": out[-600:]}
-        sh("git reset -q --hard", cwd=WT)
+        sh("git reset -q --hard && touch build.rs", cwd=WT)
         rc, out, dt = sh(cmd, cwd=WT, timeout=400)
         res["demo_without_patch"] = {"exit": rc, "wall_s": round(dt, 1), "tail": out[-300:]}
         os.unlink(os.path.join(WT, path))
